@@ -41,7 +41,10 @@ RULE = ("random molecules built atom by atom with RDKit (valence-aware growth fr
         "between two aromatic atoms (the statement's exclusion); when RDKit's sanitisation changes WHICH atoms are aromatic with "
         "respect to the text (Kekule-form rings become aromatic; lower-case atoms RDKit itself wrote are de-aromatised on "
         "re-reading) the sanitised molecule is a normalisation, not a reading, and the parser is compared with RDKit's reading of "
-        "the string without sanitisation (class rdkit=reperceived-*). non-trivial = >= 4 atoms and a ring or branch; distinct = distinct strings")
+        "the string without sanitisation (class rdkit=reperceived-*). STATE LEAKS: before about 30% of the strings one or two "
+        "state-disturbing texts (reaction bonds, rings / branches left open, pending bond symbols, texts aborted by an exception "
+        "after opening rings) are parsed first, through the module-level parse() or on the SAME Parser object that then parses the "
+        "SMILES. non-trivial = >= 4 atoms and a ring or branch; distinct = distinct strings")
 TRUSTED = [
     "ORACLE VALIDATION, not proof: RDKit's SMILES reader (MolFromSmiles) is compared with the implementation on every generated "
     "string; its agreement with `denote` on the plain fragment cannot be proved because RDKit is not modelled",
@@ -148,8 +151,11 @@ def plain_chain_text(rng):
     return None
 
 
-def mk_case(kind, text):
-    return {"kind": kind, "text": text}
+def mk_case(kind, text, pre=None, via="fresh"):
+    """pre: state-disturbing texts (c01.DISTURB: reaction bonds, rings/branches left open, aborted texts, ...) parsed first,
+    exceptions ignored; via = "module": pre-calls and the real call all go through the module-level parse();
+    via = "object": ONE Parser() object parses the pre texts and then the SMILES (its result is what is checked)."""
+    return {"kind": kind, "text": text, "pre": list(pre or []), "via": via if pre else "fresh"}
 
 
 def generate(seed, tier, ncases=None):
@@ -181,7 +187,10 @@ def generate(seed, tier, ncases=None):
                 continue
             seen.add(s)
             produced += 1
-            yield mk_case(kind, s)
+            if rng.random() < 0.3:
+                yield mk_case(kind, s, c01.rand_pre(rng), "module" if rng.random() < 0.6 else "object")
+            else:
+                yield mk_case(kind, s)
 
 
 CORPUS = ["C1CCCc2c1cccc2", "C1CC=c1", "c1ccccc1", "Cc1c(C)c(=C)ccc1", "CC(O)=O", "C1CC2C=1C2", "C.O", "c1ccc(-c2ccccc2)cc1",
@@ -195,6 +204,11 @@ CORPUS = ["C1CCCc2c1cccc2", "C1CC=c1", "c1ccccc1", "Cc1c(C)c(=C)ccc1", "CC(O)=O"
 def corpus():
     for s in CORPUS:
         yield mk_case("corpus", s)
+    # state must not leak between calls (same Parser object / module-level parse())
+    for pre, s in ((["C<1,2>C"], "CCO"), (["CC1CC"], "C1CC1"), (["C1CX"], "CC1CC1"), (["C(C"], "CC(C)C"),
+                   (["C1C2C3CC", "C="], "c1ccc2ccccc2c1"), (["C<,>", "C12C"], "C1CC2CC2C1"), (["C/C"], "c1ccccc1")):
+        yield mk_case("corpus", s, pre, "module")
+        yield mk_case("corpus", s, pre, "object")
 
 
 # ------------------------------------------------------------------ implementation + oracle
@@ -259,8 +273,18 @@ def rdkit_side(text):
 
 
 def run_impl(c):
+    if c.get("via") == "object":
+        parser = fp.Parser()
+        f = parser.parse
+    else:
+        f = fp.parse
+    for t in c.get("pre", []):
+        try:
+            f(t)
+        except Exception:
+            pass
     try:
-        g = fp.parse(c["text"])
+        g = f(c["text"])
         res = ("ok", g)
     except Exception as e:
         res = (type(e).__name__, str(e)[:200])
@@ -332,11 +356,11 @@ def known_witness_fails(entry):
 
 
 def describe(c):
-    return {"kind": c["kind"], "text": c["text"]}
+    return {"kind": c["kind"], "text": c["text"], "pre": c.get("pre", []), "via": c.get("via", "fresh")}
 
 
 def from_json(d):
-    return {"kind": d["kind"], "text": d["text"]}
+    return {"kind": d["kind"], "text": d["text"], "pre": d.get("pre", []), "via": d.get("via", "fresh")}
 
 
 def describe_out(out):
@@ -351,7 +375,7 @@ def describe_out(out):
 
 
 def key(c):
-    return c["text"]
+    return (c["text"], tuple(c.get("pre", [])), c.get("via"))
 
 
 def nontrivial(c, out):
@@ -362,6 +386,7 @@ def nontrivial(c, out):
 def classes(c, out):
     t = c["text"]
     yield "kind=" + c["kind"]
+    yield "via=" + c.get("via", "fresh")
     yield "result=" + out[0]
     rk = out[2]
     if rk[0] == "excluded" and out[0] == "ok":
